@@ -176,11 +176,30 @@ let arduino_main file =
       end
     done with End_of_file -> ())
 
+(* ---- tool mode: model --tool ctr|ecb|tweak <bs> <keyhex> <twhex|-> <dec 0|1> <batch> <infile> ----
+   prints "none" (non-zero exit, no output file) or the hex of the output file *)
+let tool_main a =
+  let kind = a.(2) and bs = int_of_string a.(3) and key = bytes_of_hex a.(4) and tw = buf_of_hex a.(5)
+  and dec = a.(6) = "1" and batch = nat_of_int (int_of_string a.(7)) in
+  let ic = open_in_bin a.(8) in
+  let n = in_channel_length ic in
+  let file = List.init n (fun _ -> byte_of_int (input_byte ic)) in
+  let r = match kind, bs with
+    | "ctr", 16 -> tool_ctr128 batch key tw file
+    | "ctr", 8 -> tool_ctr64 batch key tw file
+    | "ecb", 16 -> tool_ecb128 (batch <> S O) (nat_of_int (if int_of_string a.(7) = 8 then 128 else 64)) dec key file
+    | "ecb", 8 -> tool_ecb64 (batch <> S O) (nat_of_int 64) dec key file
+    | "tweak", 16 -> tool_tweak128 dec key tw file
+    | "tweak", 8 -> tool_tweak64 dec key tw file
+    | _ -> failwith "bad tool" in
+  (match r with None -> print_string "none\n" | Some o -> print_string (hex_of_bytes o ^ "\n"))
+
 (* usage: model <script> [has128 has256 maxleaf l1ecx l1edx l7ebx0 l7ebxN xcr0]
    — the build switches of the library under test and the real CPU as the
    driver's `cpuinfo` mode reports it (hex) *)
 let () =
   if Array.length Sys.argv > 2 && Sys.argv.(1) = "--arduino" then (arduino_main Sys.argv.(2); exit 0);
+  if Array.length Sys.argv > 8 && Sys.argv.(1) = "--tool" then (tool_main Sys.argv; exit 0);
   let ic = if Array.length Sys.argv > 1 && Sys.argv.(1) <> "-" then open_in Sys.argv.(1) else stdin in
   let arg i d = if Array.length Sys.argv > i then Sys.argv.(i) else d in
   let bld = { has128 = arg 2 "1" = "1"; has256 = arg 3 "1" = "1" } in
